@@ -29,7 +29,9 @@ def assemble_rtf(
     # Check if files exist
     missing_files = [f for f in input_files if not os.path.exists(f)]
     if missing_files:
-        raise FileNotFoundError(f"Missing files: {', '.join(missing_files)}")
+        raise FileNotFoundError(
+            f"Missing files: {', '.join(str(f) for f in missing_files)}"
+        )
 
     # Read all files
     rtf_contents = []
@@ -125,7 +127,9 @@ def assemble_docx(
     # Check input files exist
     missing_files = [f for f in input_files if not os.path.exists(f)]
     if missing_files:
-        raise FileNotFoundError(f"Missing files: {', '.join(missing_files)}")
+        raise FileNotFoundError(
+            f"Missing files: {', '.join(str(f) for f in missing_files)}"
+        )
 
     # Handle landscape argument
     if isinstance(landscape, bool):
